@@ -497,7 +497,7 @@ def expected_equation(case, res, spec):
         if faces is None:
             return ("skip",)
         for fk in faces:
-            exp.append({"face": fk[:3], "order": a["order"], "var": c["fn"], "pos": spec["trials"].index(c["fn"]),
+            exp.append({"face": fk, "order": a["order"], "var": c["fn"], "pos": spec["trials"].index(c["fn"]),
                         "ic": a["ic"], "nc": a["nc"], "lhs_str": res["conds"][i]["lhs_str"], "rhs": res["conds"][i]["rhs"],
                         "single": len(faces) == 1, "input": i})
     return ("accept", exp)
@@ -538,7 +538,7 @@ def oracle_equation(case, res, spec, r, label):
         if g["bnd"]["k"] != "face":
             bad.append(("face", "%s: condition %d is not on a single face" % (label, j), "not-a-face")); break
         f = res["faces"][g["bnd"]["faces"][0]]
-        if (f["patch"], f["axis"], f["ext"]) != tuple(e["face"]):
+        if face_key(f) != tuple(e["face"]):
             bad.append(("face", "%s: condition %d is on %s, expected %r" % (label, j, f["str"], e["face"]), "face")); break
         if g["pos"] != e["pos"]:
             bad.append(("position", "%s: condition %d has position %r, the unknown is trial function number %d"
@@ -621,6 +621,11 @@ def shrink(case, fails, budget=40):
                     c = copy.deepcopy(best); c["conds"][k][key] = None; cands.append(c)
         if best.get("via") == "find":
             c = copy.deepcopy(best); c["via"] = "Equation"; cands.append(c)
+        used = {cd["fn"] for cd in best["conds"]}
+        if not best.get("second") and len(best["eq"]["trials"]) > 1:
+            for k in range(len(best["eq"]["trials"]) - 1, -1, -1):
+                if best["eq"]["trials"][k] not in used:
+                    c = copy.deepcopy(best); del c["eq"]["trials"][k]; del c["eq"]["tests"][k]; cands.append(c)
         if best["forms"].get("bnd_term") or best["forms"].get("weight"):
             c = copy.deepcopy(best); c["forms"] = {"terms": ["mass"]}; cands.append(c)
         for c in cands:
